@@ -1,4 +1,5 @@
 """C18 - cursor position query parses the report exactly; movement is conserved."""
+import collections
 import itertools
 import re
 
@@ -23,7 +24,7 @@ ASSUMPTIONS = ["input ahead of the report contains no complete look-alike report
                "tell it from the real one (such inputs are still compared model<->code)",
                "in_stream delivers characters (text stream); with a callback, the extra bytes are the preceding characters in the "
                "stream's `.encoding` - a callback combined with a stream whose encoding is None/absent/cannot encode them is "
-               "outside the quantifier (representation-level tie only); WITHOUT a callback the stream's encoding must not "
+               "outside the quantifier (run and recorded, not tied, not judged); WITHOUT a callback the stream's encoding must not "
                "matter (ValueError for preceding input, the position otherwise): judged for encoding None, absent and ascii",
                "the production path `self.t.get_location()` (window.py:316, taken only when out_stream/in_stream are the "
                "process's real stdout/stdin: `_use_blessed`) is blessed's own query code: outside the model, the tie and the "
@@ -508,8 +509,13 @@ def check(ctx):
     inside = [c for c in gcp if not c.get("outside")]
     outside = [c for c in gcp if c.get("outside")]
     ctx.tie("C18/get_cursor_position", inside, gcp_line, gcp_impl)
-    # a callback together with a stream that cannot encode the preceding input: outside the property's quantifier
-    ctx.tie("C18/get_cursor_position unencodable input", outside, gcp_line, gcp_impl, level="representation")
+    # a callback together with a stream that cannot encode the preceding input: outside the property's quantifier and
+    # outside the model (which has no encodings): run, recorded, neither tied nor judged
+    kinds = collections.Counter()
+    for c in outside:
+        kinds[gcp_impl(c).split(" ")[0]] += 1
+    ctx.note("get_cursor_position with a callback and a stream that cannot encode the preceding input (outside the "
+             "quantifier, not judged): outcomes %r" % dict(kinds))
     for c in gcp:
         o = outs[id(c)]
         ctx.count(dict(e=c["events"], cb=c["cb"]), nontrivial=bool(c["pre"]),
